@@ -38,16 +38,16 @@ namespace RequestModel
 /-- `ContentType::parse`: only the text before the first `;` is compared, case-sensitively. -/
 def parseContentType (s : Bytes) : CType :=
   let first := (splitOn 59 s).head!
-  let table : List (String × String) := [
-    ("text/css", "Css"), ("text/csv", "Csv"), ("text/event-stream", "EventStream"),
-    ("application/x-www-form-urlencoded", "FormUrlEncoded"), ("image/gif", "Gif"),
-    ("text/html", "Html"), ("text/javascript", "JavaScript"), ("image/jpeg", "Jpeg"),
-    ("application/json", "Json"), ("text/markdown", "Markdown"),
-    ("multipart/form-data", "MultipartForm"), ("application/octet-stream", "OctetStream"),
-    ("application/pdf", "Pdf"), ("text/plain", "PlainText"), ("image/png", "Png"),
-    ("image/svg+xml", "Svg")]
+  let table : List (Bytes × String) := [
+    (b!"text/css", "Css"), (b!"text/csv", "Csv"), (b!"text/event-stream", "EventStream"),
+    (b!"application/x-www-form-urlencoded", "FormUrlEncoded"), (b!"image/gif", "Gif"),
+    (b!"text/html", "Html"), (b!"text/javascript", "JavaScript"), (b!"image/jpeg", "Jpeg"),
+    (b!"application/json", "Json"), (b!"text/markdown", "Markdown"),
+    (b!"multipart/form-data", "MultipartForm"), (b!"application/octet-stream", "OctetStream"),
+    (b!"application/pdf", "Pdf"), (b!"text/plain", "PlainText"), (b!"image/png", "Png"),
+    (b!"image/svg+xml", "Svg")]
   if first = [] then .none
-  else match table.find? (fun p => str p.1 == first) with
+  else match table.find? (fun p => p.1 == first) with
     | some p => .known p.2
     | none => .other s
 
@@ -68,8 +68,8 @@ def parseContentLength (s : Bytes) : Option Nat :=
 def parseCodings (v : Bytes) : Option (Bool × Bool) :=
   match ((splitOn 44 v).map trimWs).filter (· ≠ []) with
   | [] => some (false, false)
-  | [a] => if a = str "gzip" then some (true, false) else if a = str "chunked" then some (false, true) else none
-  | [a, b] => if a = str "gzip" ∧ b = str "chunked" then some (true, true) else none
+  | [a] => if a = b!"gzip" then some (true, false) else if a = b!"chunked" then some (false, true) else none
+  | [a, b] => if a = b!"gzip" ∧ b = b!"chunked" then some (true, true) else none
   | _ => none
 
 def cookieInsert (m : List (Bytes × Bytes)) (k v : Bytes) : List (Bytes × Bytes) :=
@@ -91,17 +91,26 @@ def bodyKind (chunked : Bool) (cl : Option Nat) (method : Bytes) (expect gzip : 
     | some 0 => .empty
     | some n => .pendingKnown n
     | none =>
-      if method = str "POST" ∨ method = str "PUT" then .pendingUnknown
+      if method = b!"POST" ∨ method = b!"PUT" then .pendingUnknown
       else if expect ∨ gzip then .pendingUnknown
       else .empty
 
+/-- The three `HeaderList` operations used by `read_http_request`; `classify` uses the model's
+    loops (`modelOps`), the proofs switch to the multimap specification via C14. -/
+structure HeaderOps where
+  removeOnly : HeaderList → Bytes → Option Bytes × HeaderList
+  removeAll : HeaderList → Bytes → List Bytes × HeaderList
+  getAll : HeaderList → Bytes → List Bytes
+
+def modelOps : HeaderOps := ⟨Headers.removeOnly, Headers.removeAll, Headers.getAll⟩
+
 /-- Everything `read_http_request` does after `read_http_head`. -/
-def classify (legacy : Bool) (h : Head) : Except HttpError ReqMeta :=
-  let (ct, hs) := Headers.removeOnly h.headers (str "content-type")
+def classifyWith (Headers : HeaderOps) (legacy : Bool) (h : Head) : Except HttpError ReqMeta :=
+  let (ct, hs) := Headers.removeOnly h.headers (b!"content-type")
   let contentType := match ct with | some s => parseContentType s | none => CType.none
-  let (ex, hs) := Headers.removeOnly hs (str "expect")
-  let expect := ex == some (str "100-continue")
-  let (tes, hs) := Headers.removeAll hs (str "transfer-encoding")
+  let (ex, hs) := Headers.removeOnly hs (b!"expect")
+  let expect := ex == some (b!"100-continue")
+  let (tes, hs) := Headers.removeAll hs (b!"transfer-encoding")
   let teValue : Option Bytes :=
     match tes with
     | [] => some []
@@ -110,10 +119,10 @@ def classify (legacy : Bool) (h : Head) : Except HttpError ReqMeta :=
   match teValue.bind parseCodings with
   | none => .error .unsupportedTransferEncoding
   | some (gzip, chunked) =>
-    match (Headers.getAll hs (str "cookie")).foldlM parseCookieValue [] with
+    match (Headers.getAll hs (b!"cookie")).foldlM parseCookieValue [] with
     | none => .error .malformedCookieHeader
     | some cookies =>
-      let cls := Headers.getAll hs (str "content-length")
+      let cls := Headers.getAll hs (b!"content-length")
       let cl : Option (Option Nat) :=
         match cls with
         | [] => some none
@@ -125,6 +134,8 @@ def classify (legacy : Bool) (h : Head) : Except HttpError ReqMeta :=
         .ok { method := h.method, url := h.url, headers := hs, cookies, contentType,
               expectContinue := expect, chunked, gzip, contentLength,
               body := bodyKind chunked contentLength h.method expect gzip }
+
+def classify (legacy : Bool) (h : Head) : Except HttpError ReqMeta := classifyWith modelOps legacy h
 
 /-- Outcome of `read_http_request` on a stream. -/
 inductive ReqOut where
